@@ -44,6 +44,26 @@ def make_crate(name, sidecar=None):
     return d, g
 
 
+
+
+def _run_group_kill(cmd, cwd, env, timeout):
+    """subprocess.run that kills the whole process group on timeout (cargo-kani leaves cbmc children behind otherwise)"""
+    import signal
+    p = subprocess.Popen(cmd, cwd=cwd, env=env, stdout=subprocess.PIPE, stderr=subprocess.PIPE, text=True, start_new_session=True)
+    try:
+        out, err = p.communicate(timeout=timeout)
+        return p.returncode, out, err, False
+    except subprocess.TimeoutExpired:
+        try:
+            os.killpg(p.pid, signal.SIGKILL)
+        except Exception:
+            pass
+        try:
+            out, err = p.communicate(timeout=10)
+        except Exception:
+            out, err = '', ''
+        return -9, out or '', (err or '') + '\nTIMEOUT after %ss' % timeout, True
+
 RESULT_RE = re.compile(r'VERIFICATION:-\s*(SUCCESSFUL|FAILED)')
 
 
@@ -56,13 +76,8 @@ def run_harness(crate_dir, harness, extra_cfg=None, playback=False, timeout=None
         env['RUSTFLAGS'] = (env.get('RUSTFLAGS', '') + ' --cfg %s' % extra_cfg).strip()
     t0 = time.time()
     try:
-        p = subprocess.run(cmd, cwd=crate_dir, env=env, capture_output=True, text=True, timeout=timeout or KANI_TIMEOUT)
-        out = p.stdout + '\n' + p.stderr
-        rc = p.returncode
-    except subprocess.TimeoutExpired as e:
-        out = (e.stdout or b'').decode('utf8', 'replace') if isinstance(e.stdout, bytes) else (e.stdout or '')
-        out += '\nTIMEOUT after %ss' % (timeout or KANI_TIMEOUT)
-        rc = -9
+        rc, o, e, _to = _run_group_kill(cmd, crate_dir, env, timeout or KANI_TIMEOUT)
+        out = o + '\n' + e
     finally:
         shutil.rmtree(env['CARGO_TARGET_DIR'], ignore_errors=True)
     return rc, out, time.time() - t0
@@ -105,25 +120,8 @@ def run_many(crate_dir, harnesses, jobs=16, timeout=None, extra_cfg=None):
     if extra_cfg:
         env['RUSTFLAGS'] = (env.get('RUSTFLAGS', '') + ' --cfg %s' % extra_cfg).strip()
     t0 = time.time()
-    try:
-        p = subprocess.run(cmd, cwd=crate_dir, env=env, capture_output=True, text=True, timeout=timeout or KANI_TIMEOUT)
-        out = p.stdout
-        err = p.stderr
-    except subprocess.TimeoutExpired as e:
-        out = e.stdout.decode('utf8', 'replace') if isinstance(e.stdout, bytes) else (e.stdout or '')
-        err = 'TIMEOUT after %ss' % (timeout or KANI_TIMEOUT)
+    rc, out, err, _to = _run_group_kill(cmd, crate_dir, env, timeout or KANI_TIMEOUT)
     blocks = {}
-    if len(harnesses) == 1 or jobs == 1:
-        # no "Thread n:" prefixes: blocks are introduced by "Checking harness X..."
-        cur = None
-        for line in out.split('\n'):
-            m = re.match(r'Checking harness (\S+?)\.\.\.', line)
-            if m:
-                cur = m.group(1)
-                blocks[cur] = ''
-            elif cur:
-                blocks[cur] += line + '\n'
-        return blocks, err, time.time() - t0
     thread_of = {}
     cur = None
     for line in out.split('\n'):
@@ -131,6 +129,11 @@ def run_many(crate_dir, harnesses, jobs=16, timeout=None, extra_cfg=None):
         if m:
             thread_of[m.group(1)] = m.group(2)
             cur = None
+            continue
+        m = re.match(r'Checking harness (\S+?)\.\.\.', line)
+        if m:
+            cur = m.group(1)
+            blocks[cur] = ''
             continue
         m = re.match(r'Thread (\d+):\s*(.*)$', line)
         if m and m.group(1) in thread_of:
@@ -240,8 +243,18 @@ def run_groups(groups, tier, seed):
         name = gdef['slice']
         hs = gdef['harnesses'](tier) if callable(gdef['harnesses']) else gdef['harnesses']
         kr = run_group(name, hs, tier, seed, jobs=gdef.get('jobs', 14))
-        if gdef.get('cex'):
+        if gdef.get('also_for'):
+            # every failed contract assertion of this harness group also counts for these properties (e.g. the relative-branch
+            # leaves decide C03 whichever assertion of the leaf fails)
             for f in kr.failures:
+                if f.props is not None:
+                    f.props = set(f.props) | set(gdef['also_for'])
+        if gdef.get('cex'):
+            # concrete values are extracted (and replayed) for the first failures only: each costs two more CBMC runs
+            for n_cex, f in enumerate(kr.failures):
+                if n_cex >= 3:
+                    f.cex = dict(note='counterexample extraction skipped: 3 failures of this slice already carry one')
+                    continue
                 try:
                     f.cex = gdef['cex'](name, f)
                 except Exception as e:
